@@ -264,9 +264,28 @@ package protocol
 //@   requires s.transportProtocol == common.PacketTransport ==> typeof(seg.metadata) == typeid(*dataAckStruct)
 //@   ensures s.transportProtocol == common.PacketTransport ==> err == nil && s.remoteWindowSize.v == uint32(payload(seg.metadata, *dataAckStruct).windowSize)
 //@   ensures s.nextRecv.v == old(s.nextRecv.v) && s.nextSend.v == old(s.nextSend.v)
+//@   // the release predicate is applied with the acknowledgement number of this very segment
+//@   assert_call segmentTree.DeleteMinIf: [C02] unAckSeq == old(payload(seg.metadata, *dataAckStruct).unAckSeq)
 //@   loop 1:
 //@     invariant s.nextRecv.v == old(s.nextRecv.v) && s.nextSend.v == old(s.nextSend.v)
 //@     invariant payload(seg.metadata, *dataAckStruct).windowSize == old(payload(seg.metadata, *dataAckStruct).windowSize)
+//@     invariant unAckSeq == old(payload(seg.metadata, *dataAckStruct).unAckSeq)
+//@
+//@ // What an acknowledgement releases (C02): a segment leaves the retransmission buffer exactly
+//@ // when its sequence number is below the peer's next expected one - an unacknowledged
+//@ // segment is never dropped (it would never be resent), an acknowledged one never kept.
+//@ // Both places that process unAckSeq use the same predicate (function literals 2).
+//@ func (s *Session) inputAck__closure2(iter *segment) (r bool)
+//@   property C02
+//@   mode int
+//@   requires wfSegMeta(iter)
+//@   ensures r <==> seqOf(iter) < unAckSeq
+//@
+//@ func (s *Session) inputData__closure2(iter *segment) (r bool)
+//@   property C02
+//@   mode int
+//@   requires wfSegMeta(iter)
+//@   ensures r <==> seqOf(iter) < unAckSeq
 //@
 //@ struct writers Session.nextRecv = {Session.moveRecvBufToRecvQueue}
 //@   property C13 C02
